@@ -218,6 +218,12 @@ type Case struct {
 	// Comps: the engines are built with component shorthands: vuego.NewFS(fs, WithComponents())
 	// and Vue.RegisterComponent("badge", "components/Badge.vuego").
 	Comps bool `json:"comps,omitempty"`
+	// Ctor: how the LONG-LIVED engines are constructed (see proc_test.go); the engine created for
+	// comparison is always built the canonical way.
+	Ctor string `json:"ctor,omitempty"`
+	// TZ: "" = mtimes in the local zone; "utc" / "east" = written in that zone; "rotate" = in
+	// addition every Stat of the long-lived file system reports the (same) instant in another zone
+	TZ string `json:"tz,omitempty"`
 }
 
 // toTime maps the model's mtime to the filesystem's: 0 is the zero time, not the Unix epoch.
@@ -226,6 +232,22 @@ func toTime(mt int64) time.Time {
 		return time.Time{}
 	}
 	return time.Unix(0, mt)
+}
+
+var zoneEast = time.FixedZone("east", 5*3600+1800)
+
+// inZone spells the same instant in the case's zone.
+func inZone(t time.Time, tz string) time.Time {
+	if t.IsZero() {
+		return t
+	}
+	switch tz {
+	case "utc", "rotate":
+		return t.UTC()
+	case "east":
+		return t.In(zoneEast)
+	}
+	return t
 }
 
 // clip shortens long texts in messages (the generated long sources).
@@ -435,14 +457,18 @@ func execute(c Case) (error, stats) {
 	}
 	fs := memfs.New()
 	for f, v := range c.Init {
-		fs.Write(f, variants[f][v].Content, toTime(m.st[f].mt))
+		fs.Write(f, variants[f][v].Content, inZone(toTime(m.st[f].mt), c.TZ))
 	}
 	lower := newLower(c.Store)
 	hook := &hookFS{m: fs}
 	// The long-lived engines.
 	long := mount(c.Store, hook, lower)
-	root := newRoot(long, c.Proc, c.Comps)
-	vue := newVue(long, c.Proc, c.Comps)
+	if !validCtor(c.Ctor) {
+		return fmt.Errorf("harness: unknown constructor spelling %q", c.Ctor), s
+	}
+	hook.rotateZones = c.TZ == "rotate"
+	root := newRoot(long, c.Proc, c.Comps, c.Ctor)
+	vue := newVue(long, c.Proc, c.Comps, c.Ctor)
 	failedBefore := false
 
 	for i, op := range c.Ops {
@@ -457,7 +483,7 @@ func execute(c Case) (error, stats) {
 			}
 			switch {
 			case op.isWrite():
-				fs.Write(op.File, variants[op.File][op.V].Content, toTime(m.st[op.File].mt))
+				fs.Write(op.File, variants[op.File][op.V].Content, inZone(toTime(m.st[op.File].mt), c.TZ))
 			case op.Op == "delete":
 				fs.Remove(op.File)
 			case op.Op == "block":
@@ -494,7 +520,7 @@ func execute(c Case) (error, stats) {
 		pres := map[string]preState{}
 		fire := func(f string) {
 			pres[f] = m.fire(f)
-			fs.Write(f, variants[f][m.st[f].v].Content, toTime(m.st[f].mt))
+			fs.Write(f, variants[f][m.st[f].v].Content, inZone(toTime(m.st[f].mt), c.TZ))
 		}
 		if len(armed) > 0 {
 			hook.onOpen = func(name string) {
@@ -531,9 +557,9 @@ func execute(c Case) (error, stats) {
 		var want string
 		var wantErr error
 		if viewIndex(op.Entry) == 1 {
-			want, wantErr = doRender(op.Entry, target, op.D, nil, newVue(snap, c.Proc, c.Comps))
+			want, wantErr = doRender(op.Entry, target, op.D, nil, newVue(snap, c.Proc, c.Comps, ctorCanonical))
 		} else {
-			want, wantErr = doRender(op.Entry, target, op.D, newRoot(snap, c.Proc, c.Comps), nil)
+			want, wantErr = doRender(op.Entry, target, op.D, newRoot(snap, c.Proc, c.Comps, ctorCanonical), nil)
 		}
 		modelOK := m.expectOK(op.Entry, target)
 		// (a processor that removes text can remove the failing expression: not counted)
@@ -680,6 +706,14 @@ func classify(c Case) (bool, []string) {
 	}
 	if c.Comps {
 		cls = append(cls, "engine:component-shorthands")
+	}
+	if c.Ctor != ctorCanonical {
+		cls = append(cls, "ctor:"+c.Ctor)
+	} else {
+		cls = append(cls, "ctor:canonical")
+	}
+	if c.TZ != "" {
+		cls = append(cls, "tz:"+c.TZ)
 	}
 	if c.Store == "" {
 		cls = append(cls, "store:plain")
@@ -848,6 +882,7 @@ type engineOpt struct {
 	proc, store string
 	zeroInit    bool
 	comps       bool
+	ctor, tz    string
 	pairs       map[string][]int // overrides enumPair: the cycle of contents a file goes through
 }
 
@@ -869,7 +904,7 @@ func nextOf(file string, curV map[string]int, pairs map[string][]int) int {
 }
 
 func buildHistory(alpha []letter, init map[string]int, word []int, o engineOpt) Case {
-	c := Case{Init: init, Proc: o.proc, Store: o.store, ZeroInit: o.zeroInit, Comps: o.comps}
+	c := Case{Init: init, Proc: o.proc, Store: o.store, ZeroInit: o.zeroInit, Comps: o.comps, Ctor: o.ctor, TZ: o.tz}
 	curV := map[string]int{} // the content variant each file got last (so that every write changes it)
 	exists := map[string]bool{}
 	for f, v := range init {
@@ -977,6 +1012,8 @@ func genCase(t *rapid.T) Case {
 	if rapid.Bool().Draw(t, "with-processor") {
 		c.Proc = rapid.SampledFrom(allProcs[1:]).Draw(t, "processor")
 	}
+	c.Ctor = rapid.SampledFrom([]string{ctorCanonical, ctorCanonical, ctorWithFSFirst, ctorWithFSMid}).Draw(t, "constructor")
+	c.TZ = rapid.SampledFrom([]string{"", "", "utc", "east", "rotate"}).Draw(t, "tz")
 	switch rapid.IntRange(0, 7).Draw(t, "store") {
 	case 0, 1:
 		c.Store = storeOverlayMixed
@@ -1216,6 +1253,9 @@ func TestProp(t *testing.T) {
 	// on the mixed-capability overlay, and starting from files that report no mtime
 	enumerate(t, "enum-fs", alphabetFS, stdInits, run.Pick([]int{3, 2}, []int{4, 3}),
 		[]engineOpt{{}, {store: storeOverlayMixed}, {zeroInit: true}, {store: storeOverlayZeroLower}})
+	// constructor spellings of the long-lived engines, against the canonically built fresh engine
+	enumerate(t, "enum-ctor", alphabet, stdInits, run.Pick([]int{3, 3}, []int{4, 4}),
+		[]engineOpt{{ctor: ctorWithFSFirst, tz: "utc"}, {ctor: ctorWithFSMid, tz: "rotate"}})
 	// engines with component shorthands: edits add and remove <badge> in page, layout and
 	// component, and edit the shorthand's component file
 	enumerate(t, "enum-comps", alphabetComps, []map[string]int{{fPage: 1, fComp: 0, fMain: 0, fBadge: 0}}, run.Pick([]int{3}, []int{5}),
